@@ -7,7 +7,7 @@ M = {"lvl2": 44, "lvl3": 16, "lvl5": 16}
 RULE = ("every a in [0,q) for power2round and the three decompose / use_hint copies (both hint bits); every (a0, w1) with "
         "w1 in [0,m), |a0| < 2*gamma2 for the composite use_hint((w1*2*gamma2+a0) mod q, make_hint(a0,w1)); make_hint on "
         "a0 in [-2*gamma2-2, 2*gamma2+2] for w1 in {0,1,m/2,m-1}. Sweeps are compared by per-chunk checksums and bisected on "
-        "mismatch. distinct_nontrivial = distinct request lines with model answer ok (one per sweep window); evaluations = input values.")
+        "mismatch. distinct_nontrivial = distinct request lines with model answer ok (one per sweep window); evaluations = input values. Polynomial-level wrappers (use_hint, use_hint_ip, decompose, make_hint) of all six poly modules at every interval boundary.")
 EXPLANATION = ("Props/C15.lean proves the contracts for all inputs (power2round, decompose for both gamma2, = FIPS 204 Alg. 35/36/40, "
                "UseHint(MakeHint) = w1, make_hint = spec MakeHint). The tie is exhaustive over the scalar domains in both tiers; "
                "thorough additionally sweeps out-of-domain i32 inputs (model says which fault).")
